@@ -314,166 +314,166 @@ def rule_emitters(chk, prog, reader_ws):
               f'Node.__str__ returns {txts}', loc=nm.loc(s), nontrivial=True)
 
 
+def _is_ws(txt, ws):
+    return txt != '' and all(c in ws for c in txt)
+
+
+def _judge_each(chk, m, f, where, case, trace, want_kind, ws, need_sep,
+                recursive):
+    """One valuation of the dispatching writer: the trace must be "for each
+    expression, in order: [white space] one rendering by the selected
+    emitter [white space]"."""
+    from ..writer_trace import flatten, show
+    tr = flatten(trace)
+    # '\n'.join(renderings) is the same sequence with separators between
+    norm = []
+    for ev in tr:
+        if ev[0] == 'joined':
+            norm.append(('eachf' if ev[3] else 'each',
+                         list(ev[2]) + list(ev[1])))
+        else:
+            norm.append(ev)
+    tr = flatten(norm)
+    desc = show(tr) or 'nothing'
+    loc = m.loc(f)
+    # R4: nothing between renderer and file
+    xf = []
+
+    def scan(evs):
+        for ev in evs:
+            if ev[0] in ('xform', 'badwrite', 'fileop'):
+                xf.append(ev)
+            if ev[0] in ('each', 'eachf'):
+                scan(ev[1])
+            if ev[0] == 'xform':
+                scan(ev[2])
+
+    scan(tr)
+    chk.check('C07.R4', where, f'{case}: rendered text reaches the file '
+              'unchanged', not xf,
+              'rendered text passes through '
+              + ', '.join(str(x[1]) for x in xf) +
+              ' before it is written: textwrap re-flows white space inside '
+              'string literals and quoted symbols, breaks tokens at '
+              'hyphens and lets a comment swallow the rest of its '
+              'expression; strip/replace alter literals and comments',
+              loc=loc, nontrivial=True, argument=desc)
+    ns = []
+
+    def scan2(evs):
+        for ev in evs:
+            if ev[0] == 'nodestr':
+                ns.append(ev)
+            if ev[0] in ('each', 'eachf'):
+                scan2(ev[1])
+            if ev[0] == 'xform':
+                scan2(ev[2])
+
+    scan2(tr)
+    chk.check('C07.R6', where, f'{case}: no str() of a whole expression',
+              not (ns and recursive),
+              'a whole top-level expression is converted with str()/format, '
+              'i.e. Node.__str__, which recurses once per nesting level: '
+              'deeply nested inputs (the explicit-stack renderers exist for '
+              'them) raise RecursionError instead of being rendered',
+              loc=loc, nontrivial=True, argument=desc)
+    if ns and not recursive:
+        raise AnalysisError(
+            f'{where}: output built with str(expression) and a '
+            'non-recursive Node.__str__: equivalence with the renderers is '
+            'not modelled')
+    if xf or ns:
+        return
+    # R2: one loop over all expressions, one rendering each, right emitter
+    tops = [ev for ev in tr if ev[0] in ('each', 'eachf')]
+    extra = [ev for ev in tr if ev[0] not in ('each', 'eachf')
+             and not (ev[0] == 'lit' and _is_ws(ev[1], ws))]
+    ok = len(tops) == 1 and tops[0][0] == 'each' and not extra
+    renders = [ev for ev in (tops[0][1] if tops else [])
+               if ev[0] == 'render']
+    ok = ok and len(renders) == 1 and renders[0][1] == want_kind
+    chk.check('C07.R2', where, f'{case}: all expressions rendered in order',
+              ok, f'under {case} the file receives: {desc}; expected: for '
+              f'each expression of the list, unfiltered and in order, one '
+              f'{want_kind} rendering', loc=loc, nontrivial=True,
+              argument=desc)
+    if not ok:
+        return
+    body = tops[0][1]
+    idx = body.index(renders[0])
+    before, after = body[:idx], body[idx + 1:]
+    junk = [ev for ev in before + after
+            if not (ev[0] == 'lit' and _is_ws(ev[1], ws))]
+    chk.check('C07.R3', where, f'{case}: only white space around each '
+              'rendering', not junk,
+              f'text other than white space is written next to each '
+              f'rendering: {desc}', loc=loc, nontrivial=True, argument=desc)
+    if need_sep:
+        sep = ''.join(ev[1] for ev in after if ev[0] == 'lit')
+        chk.check('C07.R3', where, f'{case}: separator after each top-level '
+                  'expression', _is_ws(sep, ws),
+                  'consecutive top-level expressions are written without a '
+                  'separator: two adjacent top-level leaves p, q reach the '
+                  'reader as one token "pq"', loc=loc, nontrivial=True,
+                  argument=desc)
+
+
 def rule_callers(chk, prog):
+    from ..writer_trace import trace_function, flatten, show
+    from . import c08
     m = prog.mod('nodeio')
-    # for_checking: separator between top-level expressions
-    f = m.func('write_smtlib_for_checking')
-    where = 'nodeio.write_smtlib_for_checking'
-    cfg = cfg_of(f)
-    loops = [l for l in walk_no_nested(f) if isinstance(l, ast.For)]
-    ok = len(loops) == 1
-    if ok:
-        head = cfg.node_of[id(loops[0])]
-        for p in loop_body_paths(cfg, loops[0]):
-            if p.end is not head:
-                continue
-            calls = [c for n in p.nodes[:-1] for c in node_calls(n)]
-            names = [call_name(c) or unparse(c.func) for c in calls]
-            k = [i for i, nme in enumerate(names)
-                 if nme == '__write_smtlib']
-            sep = [i for i, c in enumerate(calls)
-                   if isinstance(c.func, ast.Attribute)
-                   and c.func.attr == 'write' and c.args and isinstance(
-                       c.args[0], ast.Constant) and c.args[0].value in (
-                           '\n', ' ')]
-            ok = ok and len(k) == 1 and any(i > k[0] for i in sep)
-    chk.check('C07.R3', where, 'separator after each top-level expression',
-              ok, 'consecutive top-level expressions are written without a '
-              'separator: two adjacent top-level leaves p, q reach the '
-              'command as one token "pq" while the output file has them on '
-              'two lines', loc=m.loc(f), nontrivial=True)
-    # write_smtlib: no post-processing of rendered text
     chk.rule('C07.R4', 'rendered text is not post-processed (no re-flowing, '
              'splitting, stripping or substitution between renderer and '
              'file)')
+    chk.rule('C07.R6', 'every text the writers put into the file comes from '
+             'the explicit-stack renderers or is a constant separator: no '
+             'whole expression is converted with the recursive '
+             'Node.__str__ (nesting depth is unbounded)')
+    recursive = _str_is_recursive(prog)
+    ws = set(c08.reader_whitespace(prog))
+    # the output writer, under every valuation of the formatting options
     w = m.func('write_smtlib')
-    where = 'nodeio.write_smtlib'
-    tainted = set()
-    deny_mod = ('textwrap.', 're.')
-    deny_meth = ('split', 'strip', 'rstrip', 'lstrip', 'replace', 'join',
-                 'splitlines', 'expandtabs', 'format', 'lower', 'upper',
-                 'translate', 'ljust', 'rjust', 'center', 'zfill')
-    changed = True
-    stmts = [st for st in walk_no_nested(w) if isinstance(st, ast.Assign)]
-    while changed:
-        changed = False
-        for st in stmts:
-            src = unparse(st.value)
-            if '__write_smtlib_str(' in src or '__write_smtlib_pretty_str(' \
-                    in src or any(t in {x.id for x in ast.walk(st.value)
-                                        if isinstance(x, ast.Name)}
-                                  for t in tainted):
-                for t in st.targets:
-                    if isinstance(t, ast.Name) and t.id not in tainted:
-                        tainted.add(t.id)
-                        changed = True
-    n = 0
-    for c in ast.walk(w):
-        if not isinstance(c, ast.Call):
-            continue
-        nm_ = call_name(c) or ''
-        names = {x.id for a in list(c.args) + [k.value for k in c.keywords]
-                 for x in ast.walk(a) if isinstance(x, ast.Name)}
-        # lambda parameters fed from tainted iterables
-        lam = getattr(c, '_parent', None)
-        while lam is not None and not isinstance(lam, (ast.Lambda,
-                                                       ast.stmt)):
-            lam = getattr(lam, '_parent', None)
-        lam_tainted = False
-        if isinstance(lam, ast.Lambda):
-            mp = getattr(lam, '_parent', None)
-            if isinstance(mp, ast.Call) and call_name(mp) in ('map',
-                                                              'filter'):
-                if any(isinstance(x, ast.Name) and x.id in tainted
-                       for a in mp.args[1:] for x in ast.walk(a)):
-                    lam_tainted = True
-        uses = bool(names & tainted) or lam_tainted
-        if not uses:
-            continue
-        is_meth = isinstance(c.func, ast.Attribute) and \
-            c.func.attr in deny_meth
-        if nm_.startswith(deny_mod) or is_meth:
-            n += 1
-            chk.check('C07.R4', where, c, False,
-                      f'rendered text passes through {nm_ or c.func.attr}: '
-                      'textwrap re-flows white space inside string literals '
-                      'and quoted symbols, breaks tokens at hyphens and '
-                      'lets a comment swallow the rest of its expression',
-                      loc=m.loc(c), nontrivial=True)
-    chk.instance('C07.R4', where, f'tainted names {sorted(tainted)}; '
-                 f'{n} transforming call(s)', n == 0,
-                 'taint from renderer output to file.write', nontrivial=True)
-    # every line written is followed by a newline; pretty branch renders
-    # each expression with the pretty emitter
-    ok = False
-    for st in ast.walk(w):
-        if isinstance(st, ast.For) and unparse(st.iter) in tainted:
-            ws = [unparse(c.args[0]) for c in calls_in(st) if isinstance(
-                c.func, ast.Attribute) and c.func.attr == 'write']
-            ok = ws == [st.target.id, "'\\n'"]
-    chk.check('C07.R3', where, 'each rendered expression is followed by a '
-              'newline', ok, 'the default branch does not write each '
-              'rendered expression followed by "\\n"', loc=m.loc(w),
-              nontrivial=True)
-    # dispatcher: pretty option -> pretty emitter on every expression;
-    # otherwise compact emitter on every expression
-    wps = params_of(w)
-    exprs_p = wps[1]
-    seen_emitters = {}
-    for c in ast.walk(w):
-        if isinstance(c, ast.Call) and call_name(c) in (
-                '__write_smtlib_pretty', '__write_smtlib',
-                '__write_smtlib_str', '__write_smtlib_pretty_str'):
-            # the element variable passed must range over the parameter
-            elem = [a for a in c.args if isinstance(a, ast.Name)
-                    and a.id != wps[0]]
-            rng = None
-            par = getattr(c, '_parent', None)
-            while par is not None and par is not w:
-                if isinstance(par, ast.For) and elem and any(
-                        isinstance(x, ast.Name) and x.id == elem[0].id
-                        for x in ast.walk(par.target)):
-                    rng = (par.iter, [])
-                    break
-                if isinstance(par, (ast.ListComp, ast.GeneratorExp)):
-                    g = par.generators[0]
-                    if elem and any(isinstance(x, ast.Name)
-                                    and x.id == elem[0].id
-                                    for x in ast.walk(g.target)):
-                        rng = (g.iter, g.ifs)
-                        break
-                par = getattr(par, '_parent', None)
-            okc = rng is not None and isinstance(
-                rng[0], ast.Name) and rng[0].id == exprs_p and not rng[1] \
-                and len(par.generators if not isinstance(par, ast.For)
-                        else [1]) == 1
-            pretty_branch = ('options.args().pretty_print', True) in \
-                facts_at(w, c)
-            seen_emitters[call_name(c)] = (okc, pretty_branch, c)
-    pretty_ok = any(v[0] and v[1] for k, v in seen_emitters.items()
-                    if 'pretty' in k)
-    plain_ok = any(v[0] and not v[1] for k, v in seen_emitters.items()
-                   if 'pretty' not in k)
-    bad_branch = any((('pretty' in k) != v[1])
-                     for k, v in seen_emitters.items())
-    ok = pretty_ok and plain_ok and not bad_branch
-    chk.check('C07.R2', where, 'all expressions rendered in order', ok,
-              'not every expression of the list is rendered, in order, by '
-              'the emitter selected by --pretty-print (each emitter call '
-              'must range over the whole parameter, unfiltered)',
-              loc=m.loc(w), nontrivial=True)
-    for helper, emitter in (('__write_smtlib_str', '__write_smtlib'),
-                            ('__write_smtlib_pretty_str',
-                             '__write_smtlib_pretty')):
+    nval = 0
+    for pp in (True, False):
+        for wl in (True, False):
+            rv, traces, reads = trace_function(
+                m, 'write_smtlib', {'pretty_print': pp, 'wrap_lines': wl},
+                ['FILE', 'EXPRS'])
+            nval += 1
+            case = f'pretty_print={pp}, wrap_lines={wl}'
+            other = {k: v for k, v in traces.items() if k != 'OUT' and v}
+            _judge_each(chk, m, w, 'nodeio.write_smtlib', case,
+                        traces['OUT'], 'pretty' if pp else 'plain', ws,
+                        need_sep=not pp, recursive=recursive)
+    # the candidate writer
+    fc = m.func('write_smtlib_for_checking')
+    rv, traces, reads = trace_function(m, 'write_smtlib_for_checking', {},
+                                       ['NAME', 'EXPRS'])
+    outs = [k for k in traces if k.startswith('OPENED:')]
+    if len(outs) != 1:
+        raise AnalysisError('write_smtlib_for_checking: expected exactly '
+                            f'one opened file, found {outs}')
+    _judge_each(chk, m, fc, 'nodeio.write_smtlib_for_checking', 'checking',
+                traces[outs[0]], 'plain', ws, need_sep=True,
+                recursive=recursive)
+    # the string helpers return the emitter's output unchanged
+    for helper, kind, ps in (('__write_smtlib_str', 'plain',
+                              ['ELEM', 'WIDTH']),
+                             ('__write_smtlib_pretty_str', 'pretty',
+                              ['ELEM'])):
         h = m.func(helper)
-        cs = [call_name(c) for c in calls_in(h)]
-        ok = emitter in cs and 'io.StringIO' in cs
-        rets = [r for r in walk_no_nested(h) if isinstance(r, ast.Return)]
-        ok = ok and len(rets) == 1 and unparse(rets[0].value).endswith(
-            '.getvalue()')
+        rv, traces, reads = trace_function(m, helper, {}, ps)
+        got = flatten(rv[1]) if rv[0] == 'text' else None
+        ok = got is not None and len(got) == 1 and got[0][0] == 'render' \
+            and got[0][1] == kind
+        if ok and kind == 'plain':
+            ok = got[0][2] == ('param', 'width')
         chk.check('C07.R4', f'nodeio.{helper}', 'returns the emitter\'s '
-                  'output unchanged', ok, 'helper transforms the rendering',
+                  'output unchanged', ok,
+                  'helper transforms the rendering: it returns '
+                  + (show(got) if got is not None else str(rv)),
                   loc=m.loc(h), nontrivial=True)
+    chk.floor('C07.R2', 'valuations of the formatting options', nval, 4)
 
 
 STR_HELPERS = ('__write_smtlib_str', '__write_smtlib_pretty_str')
@@ -499,136 +499,8 @@ def _str_is_recursive(prog):
 
 
 def rule_r6(chk, prog):
-    chk.rule('C07.R6', 'every text the writers put into the file comes from '
-             'the explicit-stack renderers or is a constant separator: no '
-             'whole expression is converted with the recursive '
-             'Node.__str__ (nesting depth is unbounded)')
-    m = prog.mod('nodeio')
-    recursive = _str_is_recursive(prog)
-    n = 0
-    for fname in ('write_smtlib', 'write_smtlib_for_checking'):
-        f = m.func(fname)
-        where = f'nodeio.{fname}'
-        ps = params_of(f)
-        exprs_p = ps[1]
-
-        def defs_of(name):
-            out = []
-            for st in ast.walk(f):
-                if isinstance(st, ast.Assign) and any(
-                        isinstance(t, ast.Name) and t.id == name
-                        for t in st.targets):
-                    out.append(('val', st.value))
-                if isinstance(st, (ast.For, ast.comprehension)) and \
-                        isinstance(st.target, ast.Name) and \
-                        st.target.id == name:
-                    out.append(('elem', st.iter))
-            return out
-
-        def is_exprs_elem(e, depth=0):
-            """e is a top-level expression (an element of the parameter)."""
-            if depth > 6 or not isinstance(e, ast.Name):
-                return False
-            return any(k == 'elem' and isinstance(v, ast.Name) and (
-                v.id == exprs_p or False) for k, v in defs_of(e.id))
-
-        def classify(e, depth=0):
-            """-> set of kinds of the text value e: const, render, nodestr,
-            unknown; elem=True: e is an iterable, classify its elements"""
-            if depth > 8:
-                return {'unknown'}
-            if isinstance(e, ast.Constant) and isinstance(e.value, str):
-                return {'const'}
-            if isinstance(e, ast.Call):
-                cn = call_name(e) or ''
-                if cn in STR_HELPERS:
-                    return {'render'}
-                if cn in ('str', 'repr', 'format') and e.args:
-                    if is_exprs_elem(e.args[0]):
-                        return {'nodestr'}
-                    return {'unknown'}
-            if isinstance(e, ast.JoinedStr):
-                res = {'const'}
-                for v in e.values:
-                    if isinstance(v, ast.FormattedValue):
-                        if is_exprs_elem(v.value):
-                            res.add('nodestr')
-                        else:
-                            res |= classify(v.value, depth + 1)
-                return res
-            if isinstance(e, ast.IfExp):
-                return classify(e.body, depth + 1) | classify(
-                    e.orelse, depth + 1)
-            if isinstance(e, ast.Name):
-                ds = defs_of(e.id)
-                if not ds:
-                    return {'unknown'}
-                res = set()
-                for k, v in ds:
-                    if k == 'val':
-                        res |= classify(v, depth + 1)
-                    else:
-                        res |= classify_elems(v, depth + 1)
-                return res
-            return {'unknown'}
-
-        def classify_elems(it, depth):
-            if depth > 8:
-                return {'unknown'}
-            if isinstance(it, (ast.ListComp, ast.GeneratorExp)):
-                return classify(it.elt, depth + 1)
-            if isinstance(it, ast.Call) and call_name(it) == 'map' and len(
-                    it.args) == 2:
-                fn, src = it.args
-                over_exprs = isinstance(src, ast.Name) and src.id == exprs_p
-                if isinstance(fn, ast.Name):
-                    if fn.id in STR_HELPERS:
-                        return {'render'}
-                    if fn.id in ('str', 'repr', 'format') and over_exprs:
-                        return {'nodestr'}
-                    return {'unknown'}
-                if isinstance(fn, ast.Lambda):
-                    return classify(fn.body, depth + 1)
-            if isinstance(it, ast.Name):
-                if it.id == exprs_p:
-                    return {'nodestr'}
-                res = set()
-                for k, v in defs_of(it.id):
-                    if k == 'val':
-                        res |= classify_elems(v, depth + 1)
-                    else:
-                        res.add('unknown')
-                return res or {'unknown'}
-            if isinstance(it, ast.IfExp):
-                return classify_elems(it.body, depth + 1) | classify_elems(
-                    it.orelse, depth + 1)
-            return {'unknown'}
-
-        for c in ast.walk(f):
-            if not (isinstance(c, ast.Call) and isinstance(
-                    c.func, ast.Attribute) and c.func.attr in (
-                        'write', 'writelines') and c.args):
-                continue
-            n += 1
-            if c.func.attr == 'writelines':
-                kinds = classify_elems(c.args[0], 0)
-            else:
-                kinds = classify(c.args[0])
-            if 'unknown' in kinds:
-                raise AnalysisError(
-                    f'C07.R6: {m.loc(c)}: origin of the text written by '
-                    f'"{unparse(c)}" is not recognised (kinds {kinds})')
-            bad = 'nodestr' in kinds and recursive
-            chk.check('C07.R6', where, c, not bad,
-                      'a whole top-level expression is converted with '
-                      'str()/format, i.e. Node.__str__, which recurses '
-                      'once per nesting level: deeply nested inputs (the '
-                      'explicit-stack renderers exist for them) raise '
-                      'RecursionError instead of being rendered',
-                      loc=m.loc(c), nontrivial=True,
-                      argument=f'origins {sorted(kinds)}; Node.__str__ '
-                      f'recursive: {recursive}')
-    chk.floor('C07.R6', 'write calls in the dispatching writers', n, 2)
+    """(merged into rule_callers: provenance is read off the output traces)"""
+    return
 
 
 def rule_r5(chk, prog):
